@@ -56,7 +56,20 @@ DtypeFails(ev, pre) ==
            \* a single input element type: results must keep it
            single == Cardinality(dts) = 1
            dt == CHOOSE d \in dts : TRUE
-       IN IF ~single THEN {}
+           \* two operands of one element type each, the types differ: products take the common type
+           Promote(a, b) ==
+             LET cplx == {"complex64", "complex128"}  dbl == {"float64", "complex128"} IN
+             IF a \in dbl \/ b \in dbl THEN (IF a \in cplx \/ b \in cplx THEN "complex128" ELSE "float64")
+             ELSE (IF a \in cplx \/ b \in cplx THEN "complex64" ELSE "float32")
+           opdts(i) == LET v == pre[ev.in[i]] IN IF IsArray(v) \/ IsVector(v) THEN DtOfArray(v) ELSE {}
+           known == {"float32", "float64", "complex64", "complex128"}
+       IN IF ~single
+          THEN IF Len(ev.in) = 2 /\ ev.op \in {"multiply_diagonal", "mul", "tensordot", "matmul", "solve"}
+                  /\ Cardinality(opdts(1)) = 1 /\ Cardinality(opdts(2)) = 1 /\ opdts(1) \subseteq known /\ opdts(2) \subseteq known
+               THEN LET p == Promote(CHOOSE d \in opdts(1) : TRUE, CHOOSE d \in opdts(2) : TRUE) IN
+                    UNION { LET v == ev.regs[ev.out[i]] IN
+                            IF IsArray(v) \/ IsVector(v) THEN DtFails(v, {p}, "C20.dtype.common_type") ELSE {} : i \in 1..Len(ev.out) }
+               ELSE {}
           ELSE UNION { LET v == ev.regs[ev.out[i]] IN
                  IF ev.op \in {"svd", "svd_truncated"} /\ IsVector(v) THEN DtFails(v, {RealOf(dt)}, "C20.dtype.real")
                  ELSE IF ev.op = "eigh" /\ IsVector(v) THEN DtFails(v, {RealOf(dt)}, "C20.dtype.real")
@@ -428,6 +441,14 @@ PseudoFails(ev, pre) ==
                  IN F(/\ fx = fy /\ x.charge = y.charge /\ Duals(x) = Duals(y) /\ Labels(x) = Labels(y)
                       /\ AllDecodable(x, fx) /\ AllDecodable(y, fy)
                       /\ DecodedElems(x, fx) = DecodedElems(y, fy), c)
+            ELSE {}
+       [] ev.args.how = "same_up_to_signs" ->
+            \* same index structure, charge, labels and stored magnitudes (fermionic conjugation does not commute with
+            \* regrouping legs: the signs of the elements may differ)
+            IF IsArray(x) /\ IsArray(y) /\ AllExact(x) /\ AllExact(y)
+            THEN F(/\ Valid(x) /\ Valid(y) /\ x.charge = y.charge /\ Len(x.ix) = Len(y.ix)
+                   /\ \A i \in 1..Len(x.ix) : PlainIndex(x.ix[i]) = PlainIndex(y.ix[i])
+                   /\ {[k |-> e.k, v |-> VAbs2(e.v)] : e \in Elem(x)} = {[k |-> e.k, v |-> VAbs2(e.v)] : e \in Elem(y)}, c)
             ELSE {}
        [] ev.args.how = "array_equal" ->
             \* identical arrays up to the order in which blocks / pending signs are stored
